@@ -652,6 +652,12 @@ func drawC12(t *rapid.T, cli bool) C12Case {
 	})
 	maxFree := rapid.SampledFrom([]int{1, 3, 6}).Draw(t, "maxFree")
 	c.Decls = append(c.Decls, rapid.SliceOfN(decl, 0, maxFree).Draw(t, "decls")...)
+	if len(c.Decls) > 0 && rapid.IntRange(0, 2).Draw(t, "requote") == 0 {
+		// the same pair quoted again later (same direction), alone on its day
+		d := c.Decls[rapid.IntRange(0, len(c.Decls)-1).Draw(t, "requoteOf")]
+		d.P, d.Day = drawC12Price(t), 5
+		c.Decls = append(c.Decls, d)
+	}
 	if rapid.Bool().Draw(t, "shuffle") && len(c.Decls) > 1 {
 		c.Decls = rapid.Permutation(c.Decls).Draw(t, "fileOrder")
 	}
@@ -682,11 +688,19 @@ func drawC12(t *rapid.T, cli bool) C12Case {
 		}
 		c.Decls = keep
 	}
-	onlyPriced := rapid.IntRange(0, 3).Draw(t, "onlyPriced") != 0
+	holdMode := rapid.IntRange(0, 4).Draw(t, "onlyPriced")
+	onlyPriced := holdMode != 0
+	var loose []int
 	for _, a := range g.Answers(c.V) {
 		if a.Connected || !onlyPriced {
 			c.Hold = append(c.Hold, a.C)
+		} else {
+			loose = append(loose, a.C)
 		}
+	}
+	if holdMode == 4 && len(loose) > 0 {
+		// everything that has a price plus exactly one commodity that has none: valuing must fail because of that one
+		c.Hold = append(c.Hold, loose[rapid.IntRange(0, len(loose)-1).Draw(t, "oneLoose")])
 	}
 	return c
 }
